@@ -29,7 +29,7 @@ Definition leaps (y : Z) : Z := y / 4 - y / 100 + y / 400.
 Definition jan1_days (y : Z) : Z := 365 * (y - 1970) + (leaps (y - 1) - leaps 1969).
 Definition jan1 (y : Z) : Z := 86400 * jan1_days y.
 
-(** year of a day number: walk forward from 1970, a year at a time *)
+(** year of a day number: walk forward a year at a time *)
 Fixpoint year_loop (fuel : nat) (y d : Z) : Z :=
   match fuel with
   | O => y
@@ -37,7 +37,9 @@ Fixpoint year_loop (fuel : nat) (y d : Z) : Z :=
   end.
 
 Definition year_fuel : nat := 400.
-Definition year_of_days (d : Z) : Z := year_loop year_fuel 1970 d.
+(** start the walk at 1970 + d/366 (never after the true year): one or two steps suffice *)
+Definition year_of_days (d : Z) : Z :=
+  let y0 := 1970 + d / 366 in year_loop year_fuel y0 (d - jan1_days y0).
 Definition year_of (t : Z) : Z := year_of_days (t / 86400).
 
 (** first instant NOT covered by the model: 2370-01-01 *)
